@@ -358,9 +358,27 @@ func TestVerifC16(t *testing.T) {
 		}
 		q := "license text follows\n" + strings.Join(ws, " ")
 		what := ""
-		for _, m := range lc.MultipleMatch(q, qi%2 == 0) {
-			if !lc.WithinConfidenceThreshold(m.Confidence) {
-				what = fmt.Sprintf("MultipleMatch returned %s with confidence %.4f below threshold %.2f", m.Name, m.Confidence, lc.Threshold)
+		ms := lc.MultipleMatch(q, qi%2 == 0)
+		for _, m := range ms {
+			if m.Confidence < lc.Threshold {
+				what = fmt.Sprintf("MultipleMatch returned %s with confidence %.6f below threshold %.6f", m.Name, m.Confidence, lc.Threshold)
+			}
+		}
+		// the same query with the threshold moved just above each reported confidence: that match must go
+		for _, m := range ms {
+			if what != "" || m.Confidence >= 1.0 {
+				continue
+			}
+			th := m.Confidence + 0.0004
+			l2, err := varchive([]string{m.Name + ".txt"})
+			if err != nil {
+				continue
+			}
+			l2.Threshold = th
+			for _, m2 := range l2.MultipleMatch(q, true) {
+				if m2.Confidence < th {
+					what = fmt.Sprintf("threshold %.6f: MultipleMatch returned %s with confidence %.6f", th, m2.Name, m2.Confidence)
+				}
 			}
 		}
 		o.verdict("C16", fmt.Sprintf("mm%d", qi), what == "", true, fmt.Sprintf("mm%d", qi), map[string]interface{}{"what": what})
